@@ -142,11 +142,101 @@ def run(run, thorough):
     for (a, b), meta in zip(pairs, metas):
         if id(a) in res and id(b) in res:
             judge(run, a, b, meta, res[id(a)], res[id(b)])
+    listed_index(run, thorough)
     if pairs:
         run.sample({'level': 'differential', 'cmd': metas[0]['cmd'], 'malformed': metas[0]['kinds'], 'well_formed': [g['full'] for g in metas[0]['good']]})
 
 
+def listed_index(run, thorough):
+    """the number printed next to an entry is the number that restores it - also when entries without a DeletionDate (or with a bad one)
+    are listed among the dated ones: the listing of a first run is read, the index shown next to a well-formed entry is typed into a
+    second run on the same tree, and exactly that entry must come back"""
+    rng = run.rng
+    cases = []
+    for i in range(30 if not thorough else 300):
+        home = '/home/u'
+        td = home + '/.local/share/Trash'
+        nodes = scen.canary() + [['d', home, 0o755]]
+        good = []
+        for k in range(rng.randint(2, 4)):
+            full = home + '/keep/g%d' % k
+            nodes += scen.entry(td, 'good%d' % k, full, rng.choice(['2001-01-01T00:00:00', '2024-01-01T00:00:00', '2023-06-15T08:09:10']), 'f', data='content %d' % k)
+            good.append({'name': 'good%d' % k, 'full': full, 'content': ('content %d' % k).encode()})
+        for k in range(rng.randint(1, 3)):
+            kind = rng.choice(['undated', 'baddate', 'tz'])
+            txt = '[Trash Info]\nPath=%s/keep/u%d\n' % (home, k) + {'undated': '', 'baddate': 'DeletionDate=yesterday\n', 'tz': 'DeletionDate=2001-01-01T00:00:00Z\n'}[kind]
+            nodes += [['f', td + '/info/und%d.trashinfo' % k, txt], ['f', td + '/files/und%d' % k, 'undated payload']]
+        sort = rng.choice(['date', 'path', 'none', None])
+        argv = ['/'] + (['--sort', sort] if sort else [])
+        base = {'tree': nodes, 'mounts': [], 'cwd': '/', 'uid': 0, 'env': {'HOME': home, 'TRASH_VOLUMES': '/'}}
+        cases.append((base, argv, good, rng.choice(good), rng.choice(['sorted', 'reverse'])))
+    first = [dict(b, steps=[{'cmd': 'restore', 'argv': a, 'stdin': '\n', 'listdir': o}]) for b, a, g, pick, o in cases]
+    r1 = sandbox.execute_many(first)
+    second, keep = [], []
+    for (b, a, g, pick, o), r in zip(cases, r1):
+        if not r.get('steps'):
+            continue
+        idx = None
+        for l in r['steps'][0]['stdout'].split('\n'):
+            if l[:4].strip().isdigit() and l.endswith(' ' + pick['full']):
+                idx = int(l[:4])
+        if idx is None:
+            run.count('listed-index')
+            run.fail('oracle', 'a well-formed entry is not offered when undated entries are in scope', {'scenario': first[len(keep)], 'entry': pick['full'],
+                     'stdout': r['steps'][0]['stdout'][-400:]}, key='not-offered', section='listed-index')
+            continue
+        s2 = dict(b, steps=[{'cmd': 'restore', 'argv': a, 'stdin': '%d\n' % idx, 'listdir': o}])
+        s2['judge_meta'] = {'listed_index': True, 'good': [dict(x, content=x['content'].decode()) for x in g], 'pick': pick['full'], 'index': idx}
+        second.append(s2)
+        keep.append((g, pick, idx))
+    r2 = sandbox.execute_many(second) if second else []
+    for s2, (g, pick, idx), r in zip(second, keep, r2):
+        if r.get('steps'):
+            judge_listed_index(run, s2, r)
+
+
+def judge_listed_index(run, s2, r, section='listed-index'):
+    jm = s2['judge_meta']
+    run.count(section)
+    o = r['steps'][0]
+    after = o['after']
+    td = '/home/u/.local/share/Trash'
+    ents = engine.entries_of(after, td)
+    wrong = []
+    for x in jm['good']:
+        back = after.get(x['full'])
+        if x['full'] == jm['pick']:
+            if back is None or back[2] != x['content'].encode() or x['name'] in ents:
+                wrong.append('the chosen entry %s did not come back' % x['full'])
+        elif back is not None or x['name'] not in ents:
+            wrong.append('%s was restored although it was not chosen' % x['full'])
+    if wrong:
+        run.fail('oracle', 'typing the number printed next to an entry did not restore exactly that entry', {'scenario': s2, 'problems': wrong, 'index': jm['index'],
+                 'stdout': o['stdout'][-500:], 'exit': o['exit']}, key='index-mismatch', section=section)
+
+
 def replay(run, payload):
+    sc0 = (payload.get('case') or {}).get('scenario') or {}
+    if (sc0.get('judge_meta') or {}).get('listed_index'):
+        # both steps again: the number is read off THIS tree's listing
+        s1 = copy.deepcopy(sc0)
+        s1['steps'][0]['stdin'] = '\n'
+        r1 = sandbox.execute(s1)
+        idx = None
+        for l in (r1['steps'][0]['stdout'] if r1.get('steps') else '').split('\n'):
+            if l[:4].strip().isdigit() and l.endswith(' ' + sc0['judge_meta']['pick']):
+                idx = int(l[:4])
+        print('listing:', esc(r1['steps'][0]['stdout'][-400:]) if r1.get('steps') else None, '-> index', idx)
+        if idx is None:
+            run.fail('oracle', 'a well-formed entry is not offered when undated entries are in scope', {'scenario': s1}, key='not-offered', section='replay')
+            return
+        s2 = copy.deepcopy(sc0)
+        s2['steps'][0]['stdin'] = '%d\n' % idx
+        s2['judge_meta']['index'] = idx
+        r = sandbox.execute(s2)
+        if r.get('steps'):
+            judge_listed_index(run, s2, r, 'replay')
+        return
     case = payload.get('case') or {}
     a = case.get('scenario')
     if not a:
